@@ -65,11 +65,16 @@ func genC14(r *vc.Run) {
 		ks = append(ks, kp{keys[i].PaillierSK, fmt.Sprintf("fixture%d", i)})
 	}
 	// fresh small keys
-	for i, bits := range []int{64, 128, 256} {
-		if !r.Thorough() && i > 1 {
+	for i, bits := range []int{20, 22, 24, 28, 32, 40, 64, 128, 256} {
+		if !r.Thorough() && i > 7 {
 			break
 		}
-		for rep := 0; rep < r.Pick(2, 6); rep++ {
+		reps := r.Pick(2, 6)
+		if bits <= 40 {
+			// tiny keys, many of them: the sieve's q += delta walk crosses a power of two often enough here for a size slip to show
+			reps = r.Pick(40, 200)
+		}
+		for rep := 0; rep < reps; rep++ {
 			ka := []val.V{val.I64(int64(bits)), val.I64(r.Seed*100 + int64(rep))}
 			o, _ := vc.Exec("pai_keygen", ka)
 			ol, ok := o.(val.List)
@@ -102,7 +107,9 @@ func genC14(r *vc.Run) {
 			if bad != "" {
 				r.Violate("paillier-keygen-shape|"+bad[:8], "generated key: "+bad, vc.Line("pai_keygen", ka))
 			}
-			ks = append(ks, kp{&paillier.PrivateKey{PublicKey: paillier.PublicKey{N: N}, LambdaN: lam, PhiN: phi, P: P, Q: Q}, fmt.Sprintf("fresh%d", bits)})
+			if rep < 2 && bits >= 32 {
+				ks = append(ks, kp{&paillier.PrivateKey{PublicKey: paillier.PublicKey{N: N}, LambdaN: lam, PhiN: phi, P: P, Q: Q}, fmt.Sprintf("fresh%d", bits)})
+			}
 		}
 	}
 	for _, k := range ks {
@@ -268,20 +275,34 @@ func genC13(r *vc.Run) {
 		}
 	}
 	// alterations of cA / cB in transit: verifier ops on a proof made for the original ciphertext
-	for _, in := range honestInstances(r, "c13") {
+	insts := honestInstances(r, "c13")
+	// several independent honest exchanges: an alteration such as cA -> N^2 - cA survives an even challenge only
+	for k := 0; k < r.Pick(5, 12); k++ {
+		for _, in := range honestInstances(r, fmt.Sprintf("c13-%d", k)) {
+			if in.op == "alice_verify" || in.op == "bob_verify" || in.op == "bobwc_verify" {
+				insts = append(insts, in)
+			}
+		}
+	}
+	for _, in := range insts {
 		switch in.op {
 		case "alice_verify":
-			for _, dlt := range []int64{1, -1} {
-				args := substitute(in.args, leafPath{5}, val.I(add(val.AsInt(in.args[5]), dlt)))
-				o := r.Case("tamper/cA", true, in.op, args...)
+			cA, N := val.AsInt(in.args[5]), val.AsInt(in.args[1])
+			N2 := mul(N, N)
+			alts := map[string]*big.Int{"+1": add(cA, 1), "-1": add(cA, -1), "negated": new(big.Int).Sub(N2, cA), "times-(N+1)": new(big.Int).Mod(mul(cA, add(N, 1)), N2), "squared": new(big.Int).Mod(mul(cA, cA), N2)}
+			for name, v := range alts {
+				args := substitute(in.args, leafPath{5}, val.I(v))
+				o := r.Case("tamper/cA/"+name, true, in.op, args...)
 				if o.String() == okb(true).String() {
-					r.Violate("mta-altered-cA-accepted", "Bob accepts Alice's range proof for an altered ciphertext cA", vc.Line(in.op, args))
+					r.Violate("mta-altered-cA-accepted", "Bob accepts Alice's range proof for an altered ciphertext cA ("+name+")", vc.Line(in.op, args))
 				}
 			}
 		case "bob_verify", "bobwc_verify":
 			for _, pos := range []int{6, 7} {
-				for _, dlt := range []int64{1, -1} {
-					args := substitute(in.args, leafPath{pos}, val.I(add(val.AsInt(in.args[pos]), dlt)))
+				cv, N := val.AsInt(in.args[pos]), val.AsInt(in.args[2])
+				N2 := mul(N, N)
+				for _, v := range []*big.Int{add(cv, 1), add(cv, -1), new(big.Int).Sub(N2, cv), new(big.Int).Mod(mul(cv, add(N, 1)), N2)} {
+					args := substitute(in.args, leafPath{pos}, val.I(v))
 					o := r.Case(fmt.Sprintf("tamper/c%d", pos-5), true, in.op, args...)
 					if o.String() == okb(true).String() {
 						r.Violate("mta-altered-ciphertext-accepted", "Alice accepts Bob's proof for an altered ciphertext", vc.Line(in.op, args))
